@@ -40,6 +40,13 @@ def run_grammar_models(ctx, evals, n_of, invs, par=3, workers=5):
                      timeout=3 * 3600)
         r["beh_path"] = beh
         r["N"] = n_of(e)
+        r["samples"] = []
+        for pr in r["prints"]:
+            if pr.startswith('<<"SAMPLES", '):
+                try:
+                    r["samples"] = json.loads(json.loads(pr[len('<<"SAMPLES", '):-2]))
+                except Exception:
+                    pass
         return e, r
     with cf.ThreadPoolExecutor(max_workers=par) as ex:
         for e, r in ex.map(one, evals):
@@ -59,6 +66,7 @@ def replay_jobs(ctx, binary, profile, models, opts, shards_per_e=3):
                  "stats": os.path.join(ctx.wd, "stats_%s.ndjson" % tag), "hb": os.path.join(ctx.wd, "hb_%s" % tag),
                  "jobfile": os.path.join(ctx.wd, "job_%s.json" % tag), "seed": ctx.seed, "tier": ctx.tier}
             j.update(opts)
+            j["samples"] = r.get("samples", [])
             jobs.append(j)
     return jobs
 
@@ -234,7 +242,24 @@ def c03(ctx):
 def c04(ctx):
     return grammar_check(ctx, {"value"}, {"*": 5}, {"*": 6, "f64": 7}, {"assignments": 3, "event_every": 100, "event_cap": 2000, "nontrivial_min_ops": 2})
 
-CHECKS = {"C01": c01, "C03": c03, "C04": c04}
+def c12(ctx):
+    return grammar_check(ctx, {"meta_jux", "ok_on_reject"}, {"*": 5}, {"*": 6, "f64": 7},
+                         {"assignments": 2, "extras": ["jux"], "event_every": 200, "event_cap": 1500, "nontrivial_min_ops": 1})
+
+def c13(ctx):
+    return grammar_check(ctx, {"meta_ws", "meta_alias", "meta_notation", "meta_sup", "meta_plus", "meta_wrap"}, {"*": 4}, {"*": 5, "f64": 6},
+                         {"assignments": 2, "all_functions": True, "extras": ["spellings"], "event_every": 200, "event_cap": 1500, "nontrivial_min_ops": 1})
+
+def c14(ctx):
+    return grammar_check(ctx, {"value", "meta_ans", "ok_on_reject"}, {"*": 4}, {"*": 5, "f64": 6},
+                         {"assignments": 2, "full_placeholders": True, "extras": ["ans"], "event_every": 200, "event_cap": 1500, "nontrivial_min_ops": 1},
+                         invs=["NoJuxAfter", "NoJuxBefore"])
+
+def c20(ctx):
+    return grammar_check(ctx, {"meta_subst"}, {"*": 4}, {"*": 5, "f64": 6},
+                         {"assignments": 1, "extras": ["subst"], "event_every": 200, "event_cap": 1500, "nontrivial_min_ops": 1})
+
+CHECKS = {"C01": c01, "C03": c03, "C04": c04, "C12": c12, "C13": c13, "C14": c14, "C20": c20}
 
 def replay(prop, path):
     f = json.load(open(path))
